@@ -3,7 +3,7 @@
    Values are serde trees (lib/Serde.v); `has_shape (shape_of_kind k) v` says v is a value of the
    Rust type stored under kind k, `wf v` that its numbers/lengths are in range. *)
 From Coq Require Import List NArith Bool.
-From V Require Import lib.Strs lib.Serde lib.Msgpack gen.Consts model.Quote model.Header proofs.Msgpack proofs.Header.
+From V Require Import lib.Strs lib.Serde lib.Msgpack gen.Consts model.Quote model.Header proofs.Msgpack proofs.MsgpackExt proofs.Header.
 Import ListNotations.
 Open Scope N_scope.
 
@@ -64,6 +64,17 @@ Proof. exact chunk_encoding_no_address. Qed.
 Theorem decode_truncated_header : forall k v n,
   (n < 3)%nat -> decode_record (firstn n (encode_record k v)) = None.
 Proof. exact decode_truncated_header_lemma. Qed.
+
+(* every strict prefix of a valid record of any kind is rejected *)
+Theorem decode_truncated : forall k v n,
+  has_shape (shape_of_kind k) v = true -> wf v = true ->
+  (n < length (encode_record k v))%nat -> decode_record (firstn n (encode_record k v)) = None.
+Proof. exact decode_truncated_lemma. Qed.
+
+(* generic form: decoding does not depend on what follows the value, so truncation is an error *)
+Theorem mp_decode_stable_under_extension : forall s bs v r x,
+  enum_ok s = true -> mp_decode_as s bs = Some (v, r) -> mp_decode_as s (bs ++ x) = Some (v, r ++ x).
+Proof. intros s bs v r x H. exact (mp_decode_ext s H bs v r x). Qed.
 
 (* the generic codec theorems the above rest on *)
 Theorem mp_roundtrip_generic : forall s v r,
